@@ -42,13 +42,14 @@ ASSUMPTIONS = ["codec 'none' only (zstandard is not installed)",
                "with a missing/unreadable baseline the reader may return the full sibling, {} / not-loaded, or raise - never a dict different from the payload"]
 SHRINK_FIELDS = ["edits"]
 
-KEYS = ["a", "b", "a.b", ".", "", "a.", ".b", "x.y.z", "ü", "n→1", "_adds", "weight", "a\\.b", " "]
+# includes every character str.splitlines() treats as a line boundary (the snapshot file format is line based)
+KEYS = ["a", "b", "a.b", ".", "", "a.", ".b", "x.y.z", "ü", "n→1", "_adds", "weight", "a\\.b", " ", "l\u2028s", "p\u2029s", "n\x85l", "cr\rlf", "vt\x0bff\x0c", "fs\x1cgs\x1d"]
 
 
 def _val(r, depth=0) -> Any:
     x = r.random()
     if x < 0.35 or depth > 2:
-        return r.choice([0, 1, -1.5, "s", "", None, True, [], [1, 2], {"": 0}])
+        return r.choice([0, 1, -1.5, "s", "", None, True, [], [1, 2], {"": 0}, "line\u2028sep", "nel\x85", "para\u2029", "cr\r", "\x1e", "tab\tnl\n"])
     if x < 0.5:
         return [r.choice([1, "x", None]) for _ in range(r.randint(0, 3))]
     return {r.choice(KEYS): _val(r, depth + 1) for _ in range(r.randint(0, 3))}
